@@ -245,6 +245,14 @@ impl<'a> P<'a> {
                 self.i += 1;
                 Ok(Ast::Lit(t.literal_value().unwrap()))
             },
+            Some(Tok::Opaque(w)) => {
+                self.i += 1;
+                // an identifier here would start a call, a literal would be a juxtaposition
+                if self.peek().map_or(false, |t| t.left_sided()) {
+                    return Err(Stop::Unclaimed("D6"));
+                }
+                Ok(Ast::Opaque(w.clone()))
+            },
             Some(Tok::LParen) => {
                 self.i += 1;
                 let inner = self.chain()?;
